@@ -426,5 +426,101 @@ template <class F> Segment c13TsmSegment(long nQ, long nT) {
     return s;
 }
 
+// Very large inputs (N just above 10^6, not a multiple of small thread counts): construction paths that switch on the input size
+// (the engine is compiled with -fopenmp and linked with the real libgomp, so an `#ifdef _OPENMP` path in the construction code runs
+// as it would in a user's OpenMP build). Uniform points, one flavour per dimension; checked with the full C06 oracle.
+template <class F> Segment c06HugeSegment(long nQ, long nT) {
+    constexpr int D = F::D;
+    using Real = typename F::Real; using Data = typename F::Data;
+    Segment s; s.name = "c06-huge-" + F::name();
+    s.count = [=](bool th) { return th ? nT : nQ; };
+    s.run = [=](long kk, uint64_t seed, bool, Result& res) {
+        vh::Rng r(vh::mix(seed ^ 0x4006E, uint64_t(kk)));
+        Input<F> in; in.seed = vh::mix(seed, kk);
+        const long H = r.range(D == 1 ? 8 : D == 2 ? 5 : 3, D == 1 ? 12 : D == 2 ? 7 : D == 3 ? 5 : 4);
+        in.geo = tbx::genGeo<Real, D>(r, H, false, -1);
+        const typename F::Cfg cfg(H, in.geo.width, in.geo.center);
+        const long Ns[] = {1000003, 1000000, 1048583, 1200007};
+        const long N = Ns[kk % 4] + (kk >= 4 ? long(r.below(1000)) : 0);
+        const int threads[] = {3, 7, 12, 5, 16, 2};
+        const int T = threads[(kk / 2) % 6];
+        in.dist = "uniform"; in.blockSize = r.coin() ? -1 : (r.coin() ? 500 : 100000); in.ogp = r.coin(0.3);
+        in.parts.resize(size_t(N));
+        for (long i = 0; i < N; ++i) {
+            for (int d = 0; d < D; ++d) {
+                // strictly inside the box in Data precision (the library's precondition), any position otherwise
+                Data v; do { v = Data(Real(cfg.getBoxCorner()[d]) + Real(r.unit()) * cfg.getBoxWidths()[d]); } while (!(v >= Data(cfg.getBoxCorner()[d])) || !(Real(v - Data(cfg.getBoxCorner()[d])) < cfg.getBoxWidths()[d]));
+                in.parts[size_t(i)][d] = v;
+            }
+            for (int v = D; v < F::NV; ++v) in.parts[size_t(i)][v] = extraValue<Data>(in.seed + uint64_t(v), uint64_t(i));
+        }
+        res.desc = inputDesc<F>(in) + " | huge input under " + vh::str(T) + " OpenMP threads";
+        vh::announce(res.desc);
+        tbx::setOmpThreads(T);
+        {
+            typename F::Tree tree(cfg, in.parts, in.blockSize, in.ogp);
+            checkConstruction<F>(tree, in, res, "c06-huge");
+            checkStructure<F>(tree, H, tree.getNbElementsPerGroup(), in.ogp, res, "c06-huge");
+            res.sig = "huge:" + F::name() + ",H" + vh::str(H) + ",N" + vh::str(N) + ",T" + vh::str(T) + ",bs" + vh::str(in.blockSize);
+        }
+        tbx::setOmpThreads(1);
+        res.ev("huge-trees"); res.nontrivial = true;
+    };
+    return s;
+}
+
+// Empty particle sets: the library accepts them (constructor and rebuild() return early). N = 0 is below the "N from 1 up" of the
+// input spaces, so nothing about results is claimed; the segment exists for C15 (no report / assertion when an empty tree or an
+// empty half of a target/source tree is built, executed, rebuilt, queried and destroyed) and checks only that nothing exists in it.
+template <class F> Segment c13EmptySegment(long nQ, long nT) {
+    constexpr int D = F::D;
+    using Real = typename F::Real;
+    using TT = typename F::TreeTsm;
+    Segment s; s.name = "c13-empty-" + F::name();
+    s.count = [=](bool th) { return th ? nT : nQ; };
+    s.run = [=](long kk, uint64_t seed, bool, Result& res) {
+        vh::Rng r(vh::mix(seed ^ 0xE13D, uint64_t(kk)));
+        auto in = randomInput<F>(r, vh::mix(seed, kk), 60, false);
+        const typename F::Cfg cfg(in.geo.H, in.geo.width, in.geo.center);
+        const decltype(in.parts) none;
+        const int shape = int(kk % 4);   // 0: empty single tree; 1: no sources; 2: no targets; 3: both halves empty
+        res.desc = inputDesc<F>(in) + " | empty-input shape " + vh::str(shape);
+        auto nothingIn = [&](auto& t, const std::string& tag) {
+            if (t.getNbParticleGroups() != 0) res.fail(tag + ":particle-groups-in-empty-tree", vh::str(t.getNbParticleGroups()));
+            for (long L = 0; L < in.geo.H; ++L) if (t.getNbCellGroupsAtLevel(L) != 0) res.fail(tag + ":cell-groups-in-empty-tree", "level " + vh::str(L));
+            for (long L = 0; L < in.geo.H; ++L) for (long q : {0L, 1L, 7L}) if (t.findGroupWithCell(L, q)) res.fail(tag + ":cell-found-in-empty-tree", "level " + vh::str(L));
+            for (long q : {0L, 1L, 7L}) if (t.findGroupWithLeaf(q)) res.fail(tag + ":leaf-found-in-empty-tree", "");
+            long seen = 0; t.applyToAllLeaves([&](auto&, const long*, auto&&, auto&&) { ++seen; }); t.applyToAllCells([&](long, auto&, auto&, auto&) { ++seen; });
+            if (seen) res.fail(tag + ":callbacks-on-empty-tree", vh::str(seen));
+            res.ev("empty-trees-queried");
+        };
+        if (shape == 0) {
+            typename F::Tree tree(cfg, none, in.blockSize, in.ogp);
+            for (int round = 0; round < 3; ++round) {
+                nothingIn(tree, "c13-empty");
+                { auto d = tree.getAllParticlesData(); auto q = tree.getAllParticlesRhs(); (void)d; (void)q; }
+                if constexpr (F::NRHS > 0 && std::is_arithmetic<typename F::Rhs>::value) { TbfAlgorithm<Real, TbfTestKernel<Real, typename F::Space>, typename F::Space> algo(cfg, F::Space::IsPeriodic ? 1 : 2); algo.execute(tree); res.ev("executions-on-empty-trees"); }
+                tree.rebuild(); res.ev("rebuild-cycles"); res.ev("empty-rebuilds");
+            }
+        } else {
+            const auto& srcP = (shape == 1 || shape == 3) ? none : in.parts;
+            const auto& tgtP = (shape == 2 || shape == 3) ? none : in.parts;
+            TT tt(cfg, srcP, tgtP, in.blockSize, in.ogp);
+            for (int round = 0; round < 3; ++round) {
+                SrcView<TT> sv{tt}; TgtView<TT> tv{tt};
+                if (srcP.empty()) nothingIn(sv, "c13-empty-source"); if (tgtP.empty()) nothingIn(tv, "c13-empty-target");
+                if constexpr (F::NRHS > 0 && std::is_arithmetic<typename F::Rhs>::value) {
+                    TbfAlgorithmTsm<Real, TbfTestKernel<Real, typename F::Space>, typename F::Space> algo(cfg, F::Space::IsPeriodic ? 1 : 2); algo.execute(tt); res.ev("executions-on-empty-trees");
+                    // without sources nothing may reach a target
+                    if (srcP.empty()) tt.applyToAllLeavesTarget([&](auto& hdr, const long* idx, auto&&, auto&& rhs) { for (long p = 0; p < hdr.nbParticles; ++p) if (rhs[0][p] != typename F::Rhs(0)) { res.fail("c13-empty:target-result-without-sources", "target " + vh::str(idx[p])); return; } });
+                }
+                tt.rebuild(); res.ev("rebuild-cycles"); res.ev("empty-rebuilds");
+            }
+        }
+        res.sig = "empty:" + F::name() + ",shape" + vh::str(shape) + ",H" + vh::str(in.geo.H) + ",bs" + vh::str(in.blockSize); res.nontrivial = true;
+    };
+    return s;
+}
+
 } // namespace tr
 #endif
